@@ -102,13 +102,15 @@ def run_v_unit(path, sc, S, outdir, prop, tier, seed, baseline):
     an = verusrun.analyse(u, res)
     info["smt_s"] = an.get("smt_ms", 0) / 1000.0
     if an["unit_error"]:
-        return [Result(f"{name}/*", "V", "undecided", "verus rejected the unit: " + an["unit_error"][:600])], info
+        return [Result(f"{name}/*", "V", "undecided", "verus rejected the unit: " + an["unit_error"][:600] + ("; skipped before: " + "; ".join(f"{k}: {v}" for k, v in u.skipped.items()) if u.skipped else ""))], info
     # which obligations serve this property
     fn_props = {}
     for ch in u.fns:
         fn_props[ch.ob] = ob_props(sc, ch.meta["spec"])
     out = []
     retry = []
+    for ob, why in u.skipped.items():
+        out.append(Result(ob, "V", "undecided", why, 0, {"unit": name, "props": sc.get("properties", [])}))
     for ob, r in an["obligations"].items():
         if r["fn"].split("::")[-1].startswith("axiom_"):
             continue
